@@ -116,8 +116,14 @@ def check_family(ctx, aotools, N, rng, L0_inf=False):
         # the same screen in other length units (r0, pixel size, L0, l0 scaled together): phase is dimensionless
         cu = float(10 ** rng.uniform(-9, 3))
         su = fn(r0 * cu, N, delta * cu, L0 * cu, l0 * cu, seed=ScriptedGenerator(b1s))
-        ctx.close("length_unit_invariance", su, s1, 1e-10 * sc, "ft_phase_screen:depends_on_absolute_length_scale", dict(wit, unit_factor=cu), scale=sc)
-        if N <= 12:
+        # (an inner scale far above the pixel size leaves a screen of ~1e-150 rad, where intermediate products underflow
+        # differently in different units: not judged)
+        resolved = sc > 1e-60
+        if resolved:
+            ctx.close("length_unit_invariance", su, s1, 1e-10 * sc, "ft_phase_screen:depends_on_absolute_length_scale", dict(wit, unit_factor=cu), scale=sc)
+        else:
+            ctx.count("unit_invariance_skipped_underflowing_screen")
+        if N <= 12 and resolved:
             shs_u = discover_shapes(aotools.ft_sh_phase_screen, *args)
             bsh = [rng.standard_normal(sh) for sh in shs_u]
             a_sh = aotools.ft_sh_phase_screen(*args, seed=ScriptedGenerator(bsh))
